@@ -198,17 +198,18 @@ fn hosts() -> &'static Vec<(usize, &'static str, K)> {
     })
 }
 
-/// words of host instruction `gi` carrying `value` (+ `params`) in its first operand of kind `k`;
-/// operands before it are present, optional / variadic ones after it absent
-fn host_words(gi: &crate::golden::GInst, k: K, value: u32, params: &[u32]) -> Vec<u32> {
+/// words of host instruction `gi` carrying the given (value, parameter words) in its successive
+/// operands of kind `k` (as many occurrences as `vals` has entries); operands before them are
+/// present, optional / variadic ones after the last filled occurrence absent
+fn host_words_multi(gi: &crate::golden::GInst, k: K, vals: &[(u32, Vec<u32>)]) -> Vec<u32> {
     use rspirv::grammar::OperandQuantifier as Q;
     let mut w = vec![gi.opcode];
-    let mut done = false;
+    let mut filled = 0;
     for (ok, q) in &gi.operands {
-        if *ok == k && !done {
-            w.push(value);
-            w.extend_from_slice(params);
-            done = true;
+        if *ok == k && filled < vals.len() {
+            w.push(vals[filled].0);
+            w.extend_from_slice(&vals[filled].1);
+            filled += 1;
             continue;
         }
         match q {
@@ -217,7 +218,7 @@ fn host_words(gi: &crate::golden::GInst, k: K, value: u32, params: &[u32]) -> Ve
                 other => w.extend(kind_word(*other)),
             },
             _ => {
-                if !done {
+                if filled < vals.len() {
                     w.extend(kind_word(*ok));
                 }
             }
@@ -225,6 +226,10 @@ fn host_words(gi: &crate::golden::GInst, k: K, value: u32, params: &[u32]) -> Ve
     }
     w[0] |= (w.len() as u32) << 16;
     w
+}
+
+fn host_words(gi: &crate::golden::GInst, k: K, value: u32, params: &[u32]) -> Vec<u32> {
+    host_words_multi(gi, k, &[(value, params.to_vec())])
 }
 
 /// the parser-side clauses through EVERY instruction of the grammar that can carry the kind
@@ -280,6 +285,40 @@ fn sub_hosts(input: &[u8], st: &mut Stats) -> R {
         st.evaluations += 1;
     }
     st.evaluations -= 1;
+    // instructions that carry the kind TWICE (OpCopyMemory / OpCopyMemorySized: target and
+    // source memory access): both occurrences present, each followed by its own parameters
+    if gi.operands.iter().filter(|(ok, _)| *ok == k).count() >= 2 {
+        let small: Vec<u32> = vals.iter().copied().filter(|v| v.count_ones() <= 2).collect();
+        for v1 in &small {
+            for v2 in &small {
+                let mk = |v: u32| -> Vec<u32> {
+                    let mut pw = vec![];
+                    for p in &golden_params(ge, v) {
+                        pw.extend(kind_word(*p));
+                    }
+                    pw
+                };
+                let f = |clause: &str, msg: String| Fail::new(clause, format!("{}:{:#x}+{:#x}@{}", kind, v1, v2, gi.opname), msg);
+                let mut bin = header_words((1, 6), 100);
+                bin.extend(host_words_multi(gi, k, &[(*v1, mk(*v1)), (*v2, mk(*v2))]));
+                let (c, r) = parse_words_collect(&bin)?;
+                if let Err(e) = &r {
+                    return Err(f("parser-consumes-reported", format!("Op{} carrying {} twice ({:#x}, {:#x}) with their parameters rejected: {}", gi.opname, kind, v1, v2, e)));
+                }
+                let inst = &c.insts[0];
+                let (o1, o2) = (enum_operand(k, *v1).unwrap(), enum_operand(k, *v2).unwrap());
+                let p1 = inst.operands.iter().position(|o| *o == o1).ok_or_else(|| f("parser-consumes-reported", "first value not delivered".into()))?;
+                let n1 = golden_params(ge, *v1).len();
+                let n2 = golden_params(ge, *v2).len();
+                let got2 = inst.operands.get(p1 + 1 + n1);
+                if got2 != Some(&o2) || inst.operands.len() != p1 + 2 + n1 + n2 {
+                    return Err(f("reflection-vs-parser", format!("Op{}: after {:?} and its {} parameters the parser delivers {:?} (operands {:?})", gi.opname, o1, n1, got2, inst.operands.iter().map(operand_variant).collect::<Vec<_>>())));
+                }
+                st.evaluations += 1;
+            }
+        }
+        st.count("hosts_with_two_occurrences");
+    }
     st.set_insert("hosts", format!("{}:{}", gi.opname, kind));
     st.nontrivial(hash_str(&format!("{}:{}", gi.opname, kind)));
     Ok(())
